@@ -53,6 +53,8 @@ Cases ==
   \cup { << "forge", n, mut >> : n \in {1, 2, 3}, mut \in 0..3 }
   \cup { << "forgepos", n, j >> : n \in {2, 3, 4}, j \in 2..4 }              \* s_j + N at EVERY non-signer position (j > n: skipped to j = n)
   \cup { << "empty", v >> : v \in 0..3 }
+  \cup { << "forgezero", n, j >> : n \in {2, 3}, j \in 2..3 }                  \* a ring member CHOOSES s_j = 0 for another member: the equation closes, verification must refuse
+  \cup { << "offnegw", n, pos, what >> : n \in {2, 3}, pos \in 1..3, what \in 0..1 }      \* offline_pos = -W at a NON-signer position (signer = member 1 or 2)
   \cup { << "infring", n, v >> : n \in {1, 2, 3}, v \in 0..1 }
   \cup { << "count", c, dl >> : c \in 0..255, dl \in {0, 1, 2} }
 
@@ -99,6 +101,27 @@ ExpandForgePos(n, j0) ==
       data == b[2] \o Flatten([i \in 1..n |-> Scalar32(b[3][i])])
   IN WV(WlSerialize(n, SetScalar(data, j, Add(WlScalar(data, j), N))), OnList(n), OffList(n), Ser33(WPt))
 
+\* a key list in which offline_pos = -W (pos is not the signer): signing (what = 0) and verifying the specified signature (what = 1)
+ExpandOffNegW(n, pos0, what) ==
+  LET pos == IF pos0 > n THEN n ELSE pos0
+      signer == IF pos = 1 THEN 2 ELSE 1
+      offp == [i \in 1..n |-> IF i = pos THEN PNeg(WPt) ELSE OffPt(i)]
+      onp  == [i \in 1..n |-> OnPt(i)]
+      offs == [i \in 1..n |-> Ser33(offp[i])]
+      sg == WlSign(onp, offp, WPt, NBytes(OnSec(signer)), NBytes(SumSec(signer)), signer - 1)
+  IN  IF what = 0 THEN [ e |-> "WlSign", in |-> [ ons |-> OnList(n), offs |-> offs, sub |-> Ser33(WPt), onsec |-> NBytes(OnSec(signer)),
+                                                   sumsec |-> NBytes(SumSec(signer)), index |-> signer - 1 ] ]
+      ELSE WV(WlSerialize(sg[2], sg[3]), OnList(n), offs, Ser33(WPt))
+
+ExpandForgeZero(n, j0) ==
+  LET j == IF j0 > n THEN n ELSE j0
+      onp == [i \in 1..n |-> OnPt(i)]  offp == [i \in 1..n |-> OffPt(i)]
+      keys == WlRingKeys(onp, offp, WPt)  msg == WlMsg(onp, offp, WPt)
+      sec == SAdd(SMul(SumSec(1), FromBytesBE(Sha256Hash(Ser33(PMulG(SumSec(1)))))), OnSec(1))
+      b == BorSign(keys, [i \in 1..n |-> IF i = j THEN Zero ELSE FromNat(100 + i)], << FromNat(12345) >>, << sec >>, << n >>, << 0 >>, msg)
+      data == b[2] \o Flatten([i \in 1..n |-> Scalar32(b[3][i])])
+  IN WV(WlSerialize(n, data), OnList(n), OffList(n), Ser33(WPt))
+
 \* finding F1: for an EMPTY key list the ring chain degenerates to e0 = H(msg), computable by anyone
 ExpandEmpty(v) ==
   LET msg == Sha256Hash(Ser33(WPt))  e0 == Sha256Hash(msg) IN
@@ -134,6 +157,8 @@ Expand(c) ==
     [] c[1] = "flip" -> LET h == Honest(2, 1) IN WV(FlipBit(WlSerialize(h[2], h[3]), c[2]), OnList(2), OffList(2), Ser33(WPt))
     [] c[1] = "forge" -> ExpandForge(c[2], c[3])
     [] c[1] = "empty" -> ExpandEmpty(c[2])
+    [] c[1] = "forgezero" -> ExpandForgeZero(c[2], c[3])
+    [] c[1] = "offnegw" -> ExpandOffNegW(c[2], c[3], c[4])
     [] c[1] = "forgepos" -> ExpandForgePos(c[2], c[3])
     [] c[1] = "count" -> WV(<< c[2] >> \o Rep(1, 32 * (IF c[2] = 255 THEN 256 ELSE c[2] + c[3])), OnList(1), OffList(1), Ser33(WPt))
 
